@@ -271,6 +271,27 @@ func semaSection(u *Universe, r *Report, fn *ssa.Function, owner, acquire string
 	})
 	okDef := def != nil
 	if okDef {
+		// nothing leaves the function between the successful acquire and the defer
+		forEachInstr(fn, func(in ssa.Instruction) {
+			ret, isRet := in.(*ssa.Return)
+			if !isRet || instrDominates(def, ret) {
+				return
+			}
+			lits, _ := litStrings(fn, ret)
+			for _, p := range lits {
+				failed := false
+				for _, l := range p {
+					if strings.HasPrefix(l, "!"+acquire+"(") || (strings.Contains(l, acquire+"(") && strings.HasSuffix(l, "!= nil")) {
+						failed = true
+					}
+				}
+				if !failed {
+					okDef = false
+				}
+			}
+		})
+	}
+	if okDef {
 		for _, c := range callsNamed(fn, "sync", "syncPushPullPacks", "CreatePushPullPack") {
 			if !instrDominates(def, c.(ssa.Instruction)) {
 				okDef = false
